@@ -51,8 +51,13 @@ func mkTS(epoch int64, tag string, parent *vec.TS, table gpbft.PowerEntries, per
 	return &vec.TS{E: epoch, K: vgen.DetBytes(keyLen, "tsk", tag, epoch), B: vgen.DetBytes(16, "beacon", tag, epoch), T: t0.Add(time.Duration(epoch) * period), Parent: parent, Table: table}
 }
 
+// ecOrder is the order in which the current world's EC backend lists power-table members: a
+// tipset carries the CID of EC's table as EC serves it (committees and supplemental data are
+// canonical whatever EC does).
+var ecOrder string
+
 func toGpbft(ts *vec.TS) *gpbft.TipSet {
-	return &gpbft.TipSet{Epoch: ts.E, Key: ts.K, PowerTable: vref.TableCID(ts.Table)}
+	return &gpbft.TipSet{Epoch: ts.E, Key: ts.K, PowerTable: vref.TableCID(vec.Permute(ts.Table, ecOrder))}
 }
 
 // genManifest draws a manifest that passes Validate.
@@ -81,6 +86,9 @@ func genManifest(t *rapid.T, maxLookback int) manifest.Manifest {
 // genWorld draws EC tree, certificate history and head position.
 func genWorld(t *rapid.T, nulls bool, mainLen int) *world {
 	w := &world{m: genManifest(t, 6), ec: vec.New(), clk: clock.NewMock()}
+	// the EC backend may list power-table members in any order
+	w.ec.Order = rapid.SampledFrom([]string{"", "", "by-id", "reverse"}).Draw(t, "ecorder")
+	ecOrder = w.ec.Order
 	period := w.m.EC.Period
 	table := vgen.Entries(t, "tbl", 1, 6).Entries
 	var prev *vec.TS
@@ -148,7 +156,7 @@ func (w *world) buildCerts(t *rapid.T, k int) {
 		c := &certs.FinalityCertificate{
 			GPBFTInstance:    inst,
 			ECChain:          &gpbft.ECChain{TipSets: ts},
-			SupplementalData: gpbft.SupplementalData{PowerTable: vref.TableCID(next)},
+			SupplementalData: gpbft.SupplementalData{PowerTable: vref.TableCID(vref.Canonical(next))},
 			PowerTableDelta:  vref.MakeDiff(cur, next),
 		}
 		vgen.SignCert(w.m.NetworkName, cur, c, vgen.SignerSet(t, "sig", cur, "minimal"))
@@ -276,7 +284,7 @@ func (w *world) expectedProposal(instance uint64) (*gpbft.ECChain, gpbft.Supplem
 	}
 	var sd gpbft.SupplementalData
 	if cts := w.committeeTS(instance + 1); cts != nil {
-		sd.PowerTable = vref.TableCID(cts.Table)
+		sd.PowerTable = vref.TableCID(vref.Canonical(cts.Table))
 	}
 	return &gpbft.ECChain{TipSets: ts}, sd, shape
 }
